@@ -72,6 +72,31 @@ theorem C04_edges {N : Type} [DecidableEq N] (bk : Book N) (fuel n : Nat) (seed 
   · rw [hdone] at h; simp at h
   · exact h
 
+/-- a pass that ABORTS: building a precedent of the popped dependant `d` raises (a missing sheet, a linked workbook)
+    after a prefix `ps` of `d`'s needed addresses was connected.  The code leaves `graph_todos` as it is, so the cells
+    discovered in that pass are still queued; any later `_gen_graph(seed')` that empties the work list gives every
+    built node OTHER THAN `d` all its edges (`d` itself cannot be evaluated to completion: its remaining precedent
+    does not build).  This is the state the property speaks about for the siblings that are evaluated later. -/
+theorem C04_edges_after_abort {N : Type} [DecidableEq N] (bk : Book N) (fuel n' : Nat) (seed seed' d : N)
+    (rest ps : List N) (k : Nat)
+    (ht : (genLoop bk fuel k (makeCells bk fuel seed ⟨[], [], []⟩)).todos = d :: rest) :
+    let aborted := ps.foldl (edgeStep bk fuel d)
+      { genLoop bk fuel k (makeCells bk fuel seed ⟨[], [], []⟩) with todos := rest }
+    let final := genLoop bk fuel n' (makeCells bk fuel seed' aborted)
+    final.todos = [] → ∀ i ∈ final.cellMap, bk.hasPrec i = true → i ≠ d →
+      ∀ p ∈ bk.needed i, (p, i) ∈ final.edges := by
+  intro aborted final hdone i hi hp hne
+  have h0 : InvX bk (fun _ => False) (genLoop bk fuel k (makeCells bk fuel seed ⟨[], [], []⟩)) :=
+    genLoop_inv bk _ fuel k _ (makeCells_inv bk _ fuel seed _ (by intro i hi; simp at hi))
+  have h1 := abort_state_inv bk _ fuel _ d rest ps h0 ht
+  have h2 : InvX bk (fun i => False ∨ i = d) final :=
+    genLoop_inv bk _ fuel n' _ (makeCells_inv bk _ fuel seed' _ h1)
+  rcases h2 i hi hp with (h | h) | h | h
+  · exact absurd h id
+  · exact absurd h hne
+  · rw [hdone] at h; simp at h
+  · exact h
+
 /-- `_CellRange.needed_addresses`: a range node has an edge from each of its member cells -/
 theorem C04_range_members {N : Type} [DecidableEq N] (bk : Book N) (fuel n : Nat) (seed : N)
     (hdone : (genGraph bk fuel n seed).todos = []) (rng : N) (members : List N)
